@@ -8,12 +8,12 @@ pub const FIXTURE_SENTENCES: &[&str] = &[
     "ｱｲｳ", "ＡＢＣ", "ｶﾞ", "㍿", "ﾊﾟﾊﾟ", "スーーパーー", "ゴール", "うぉーーー〜〜", "徳島（とくしま）に行く", "阿波(あわ)", "京都（きょうと）東京",
     "Ⅲ", "第Ⅲ章", "İstanbul", "ǅ", "ß", "ﬃ", "…", "京都…東京都", "👍🏻東", "👨‍👩‍👧", "🇯🇵", "e\u{0301}", "か\u{3099}",
     "#\0M㍿", "\0", " ", "　", "\t\n", "a b", "𠮷野家", "𠮷", "\u{FDFA}", "\u{FDFA}a\u{FDFA}", "ﾞ", "゛東",
-    "とうきょうとに行った", "きょうとふ", "とうきょうと", "", "あ", "ぁ", "ー", "ーー", "、。", "abcdeABCDE", "αβγ", "привет", "1.", "1,", ".5", "1,23", "12,345,6",
+    "とうきょうとに行った", "きょうとふ", "とうきょうと", "アイウアイエ", "アイウアイ", "エアイウアイァ", "アイウアイに行った", "", "あ", "ぁ", "ー", "ーー", "、。", "abcdeABCDE", "αβγ", "привет", "1.", "1,", ".5", "1,23", "12,345,6",
 ];
 
 const POOLS: &[&[&str]] = &[
     // dictionary words of the fixture lexicon
-    &["東京", "京都", "東京都", "東", "京", "都", "に", "行っ", "た", "行った", "いく", "いっ", "府", "とうきょうと", "きょうとふ", "東京府", "すだち", "かぼす", "ぴらる", "ぴさる", "特", "な", "。", "アイ", "アイウ", "ア", "イ", "ウ"],
+    &["東京", "京都", "東京都", "東", "京", "都", "に", "行っ", "た", "行った", "いく", "いっ", "府", "とうきょうと", "きょうとふ", "東京府", "すだち", "かぼす", "ぴらる", "ぴさる", "特", "な", "。", "アイ", "アイウ", "ア", "イ", "ウ", "アイウアイ", "エ"],
     // ascii / full-width / half-width
     &["a", "b", "Z", "A", "z9", "-", "_", " ", "Ａ", "ｚ", "１", "９", "ｱ", "ｲ", "ｶﾞ", "ﾊﾟ", "ｰ", "！", "（", "）", "(", ")"],
     // NFKC expanders and exempt characters
